@@ -1,8 +1,109 @@
 package sym
 
-import "go/token"
+import (
+	"fmt"
+	"go/token"
+	"go/types"
+	"math"
+
+	"crdverif/smt"
+
+	"golang.org/x/tools/go/ssa"
+)
 
 const tokenLSS = token.LSS
 
-func registerEnv(e *Engine)  {}
-func registerMIDI(e *Engine) {}
+const smfPkg = "gitlab.com/gomidi/midi/v2/smf"
+
+func registerEnv(e *Engine) {}
+
+// deepEqual is reflect.DeepEqual for the value shapes crd and gomidi use it on.
+func (e *Engine) deepEqual(t types.Type, a, b Value) *smt.Term {
+	switch u := under(t).(type) {
+	case *types.Slice:
+		x, y := a.(sliceV), b.(sliceV)
+		if x.nil != y.nil || len(x.a) != len(y.a) {
+			return e.ctx.False
+		}
+		cs := make([]*smt.Term, len(x.a))
+		for i := range x.a {
+			cs[i] = e.deepEqual(u.Elem(), x.a[i], y.a[i])
+		}
+		return e.ctx.And(cs...)
+	case *types.Struct:
+		x, y := a.(structV), b.(structV)
+		cs := make([]*smt.Term, len(x))
+		for i := range x {
+			cs[i] = e.deepEqual(u.Field(i).Type(), x[i], y[i])
+		}
+		return e.ctx.And(cs...)
+	case *types.Array:
+		x, y := a.(arrayV), b.(arrayV)
+		cs := make([]*smt.Term, len(x))
+		for i := range x {
+			cs[i] = e.deepEqual(u.Elem(), x[i], y[i])
+		}
+		return e.ctx.And(cs...)
+	case *types.Pointer:
+		pa, ok1 := a.(*Value)
+		pb, ok2 := b.(*Value)
+		if ok1 && ok2 {
+			if pa == nil || pb == nil {
+				return e.ctx.BoolConst(pa == pb)
+			}
+			if pa == pb {
+				return e.ctx.True
+			}
+			return e.deepEqual(u.Elem(), *pa, *pb)
+		}
+	case *types.Basic:
+		return e.equal(t, a, b)
+	}
+	e.abort(abortEngine, fmt.Sprintf("reflect.DeepEqual on %v not modelled", t))
+	return nil
+}
+
+func registerMIDI(e *Engine) {
+	r := e.intr
+	r["reflect.DeepEqual"] = func(e *Engine, fr *frame, args []Value, site ssa.CallInstruction) Value {
+		a, b := args[0].(iface), args[1].(iface)
+		if a.t == nil || b.t == nil {
+			return a.t == nil && b.t == nil
+		}
+		if !types.Identical(a.t, b.t) {
+			return false
+		}
+		return e.lowerBool(e.deepEqual(a.t, a.v, b.v))
+	}
+	// MetaTempo uses math/big; the formula is the SMF tempo definition (microseconds per quarter)
+	r[smfPkg+".MetaTempo"] = func(e *Engine, fr *frame, args []Value, site ssa.CallInstruction) Value {
+		mk := func(b0, b1, b2 Value) Value {
+			return sliceV{a: []Value{uint64(0xFF), uint64(0x51), uint64(3), b0, b1, b2}}
+		}
+		if f, ok := args[0].(float64); ok {
+			rr := uint32(math.Round(60000000 / f))
+			if rr > 0x0FFFFFFF {
+				rr = 0x0FFFFFFF
+			}
+			return mk(uint64(rr>>16&0xFF), uint64(rr>>8&0xFF), uint64(rr&0xFF))
+		}
+		c := e.ctx
+		q := c.FUn(smt.OFRoundRNA, c.FDiv(c.FPConst(60000000), args[0].(*smt.Term)))
+		inRange := c.And(c.FLe(c.FPConst(0), q), c.FLt(q, c.FPConst(4294967296.0)))
+		e.obligation(inRange, "float to integer conversion out of range (tempo)")
+		v := c.FToUBV(q, 32)
+		v = c.Ite(c.Ult(c.BVConst(32, 0x0FFFFFFF), v), c.BVConst(32, 0x0FFFFFFF), v)
+		bt := types.Typ[types.Uint8]
+		return mk(e.lower(c.Extract(v, 23, 16), bt), e.lower(c.Extract(v, 15, 8), bt), e.lower(c.Extract(v, 7, 0), bt))
+	}
+}
+
+// smfGlobals supplies the gomidi package-level values the engine needs without running
+// gomidi's initialisers.
+func (e *Engine) smfGlobal(key string) Value {
+	switch key {
+	case smfPkg + ".EOT":
+		return sliceV{a: []Value{uint64(0xFF), uint64(0x2F), uint64(0)}}
+	}
+	return nil
+}
